@@ -55,6 +55,7 @@ def register(PROPS):
             D('harness/exec/c12_journal.py', ['set=killed'], label='shared-journal', interp=_PY, shards=6),
         ],
         'assumptions': [
+            'every journal entry of a session (one echsx process fed several requests) is BEGIN:VTODO followed by its DTSTAMP line (clause rt/journal-form of the real-time streams)',
             'limits are whole seconds (neither DURATION nor the date-time forms used carry fractions); DTSTART/DTEND in UTC form',
             'DURATION spellings are generated from the strict RFC 5545 grammar (after H only M, after M only S); the internal hand-overs are read leniently (any ISO 8601 P[nW][nD][T[nH][nM][nS]])',
             'DUE equal to now: refused and killed-at-once are both accepted; starting the job without any timer is a violation',
